@@ -22,7 +22,7 @@ def data_key(d: Any) -> Any:
     if isinstance(d, Attribute):
         return attr_key(d)
     if isinstance(d, bool):
-        return ("b", d)
+        return ("i", int(d))  # Python: True == 1; IntAttr(True) and IntAttr(1) denote the same payload
     if isinstance(d, int):
         return ("i", d)
     if isinstance(d, float):
@@ -200,3 +200,60 @@ def normalized_dicts(op: Any) -> tuple[dict[str, Any], dict[str, Any]]:
         if default is not None and name in props and attr_key(props[name]) == attr_key(default):
             del props[name]
     return attrs, props
+
+
+def canon_diff(a: Any, b: Any, path: str = "") -> str | None:
+    """first difference between two canonical forms, as 'path: left != right' (debug aid for witnesses)"""
+    if a == b:
+        return None
+    if isinstance(a, tuple) and isinstance(b, tuple):
+        if len(a) != len(b):
+            return f"{path}: length {len(a)} != {len(b)}: {str(a)[:200]} | {str(b)[:200]}"
+        for i, (x, y) in enumerate(zip(a, b)):
+            d = canon_diff(x, y, f"{path}/{i}")
+            if d is not None:
+                return d
+    return f"{path}: {str(a)[:300]} != {str(b)[:300]}"
+
+
+def first_op_diff(a: Any, b: Any, normalize: bool = True) -> str:
+    """Root-cause label for two non-equivalent ops trees: '<op name>|<field>[:<key>:<attr class>]' of the first
+    operation (pre-order, lockstep) whose own fields differ.  Used to build narrow violation signatures."""
+    ca, cb = canon([a], normalize=normalize)[0], canon([b], normalize=normalize)[0]
+
+    def rec(x: tuple, y: tuple) -> str | None:
+        # x, y are c_op tuples
+        if x == y:
+            return None
+        if x[1] != y[1]:
+            return f"{x[1]}|op-name"
+        names = {2: "operands", 3: "result-types", 4: "attr", 5: "prop", 6: "successors"}
+        for i in (2, 3, 6):
+            if x[i] != y[i]:
+                return f"{x[1]}|{names[i]}"
+        for i in (4, 5):
+            if x[i] != y[i]:
+                dx, dy = dict(x[i]), dict(y[i])
+                for k in sorted(set(dx) | set(dy)):
+                    if dx.get(k) != dy.get(k):
+                        v = dx.get(k) or dy.get(k)
+                        kind = "missing" if (k not in dx or k not in dy) else "differs"
+                        return f"{x[1]}|{names[i]}:{k}:{v[1][1]}:{kind}"
+        rx, ry = x[7], y[7]
+        if len(rx) != len(ry):
+            return f"{x[1]}|region-count"
+        for r1, r2 in zip(rx, ry):
+            if len(r1[1]) != len(r2[1]):
+                return f"{x[1]}|block-count"
+            for b1, b2 in zip(r1[1], r2[1]):
+                if b1[2] != b2[2]:
+                    return f"{x[1]}|block-arg-types"
+                if len(b1[3]) != len(b2[3]):
+                    return f"{x[1]}|op-count"
+                for o1, o2 in zip(b1[3], b2[3]):
+                    d = rec(o1, o2)
+                    if d is not None:
+                        return d
+        return f"{x[1]}|unknown"
+
+    return rec(ca, cb) or "equal"
